@@ -182,8 +182,64 @@ def resolve_function(I, key, enclosing_locals=None):
     return Closure(cur, mod, enclosing, key)
 
 
+MUTATORS = {"append", "extend", "insert", "pop", "remove", "clear", "update", "setdefault", "popitem", "add", "discard", "sort", "reverse", "fill", "resize", "put"}
+
+
+def self_write_set(fn_node):
+    """Attributes of the first parameter (self) that the function's own text assigns, deletes, augments, stores into
+    (self.a[k] = v) or mutates through a well-known mutator call (self.a.append(v)); '*' for setattr(self, ...)."""
+    if not fn_node.args.args:
+        return set()
+    me = fn_node.args.args[0].arg
+    out = set()
+
+    def attr_of(t):
+        # self.a  /  self.a[...]  /  self.a[...][...]
+        while isinstance(t, ast.Subscript):
+            t = t.value
+        if isinstance(t, ast.Attribute) and isinstance(t.value, ast.Name) and t.value.id == me:
+            return t.attr
+        return None
+
+    def targets(t):
+        if isinstance(t, (ast.Tuple, ast.List)):
+            for e in t.elts:
+                yield from targets(e)
+        elif isinstance(t, ast.Starred):
+            yield from targets(t.value)
+        else:
+            yield t
+
+    for nd in ast.walk(fn_node):
+        tg = []
+        if isinstance(nd, ast.Assign):
+            for t in nd.targets:
+                tg += list(targets(t))
+        elif isinstance(nd, (ast.AugAssign, ast.AnnAssign)):
+            tg += list(targets(nd.target))
+        elif isinstance(nd, ast.Delete):
+            for t in nd.targets:
+                tg += list(targets(t))
+        elif isinstance(nd, (ast.For, ast.AsyncFor)):
+            tg += list(targets(nd.target))
+        elif isinstance(nd, ast.Call):
+            f = nd.func
+            if isinstance(f, ast.Attribute) and f.attr in MUTATORS:
+                a = attr_of(f.value)
+                if a:
+                    out.add(a)
+            if isinstance(f, ast.Name) and f.id in ("setattr", "delattr") and nd.args and isinstance(nd.args[0], ast.Name) and nd.args[0].id == me:
+                out.add("*")
+        for t in tg:
+            a = attr_of(t)
+            if a:
+                out.add(a)
+    return out
+
+
 def verify_contract(contract, repo, callee_contracts, models_factory, max_paths=400, log=None):
     rep = FunctionReport(contract)
+    frame_checked = False
     t0 = time.time()
     work = [[]]
     seen = 0
@@ -208,6 +264,17 @@ def verify_contract(contract, repo, callee_contracts, models_factory, max_paths=
             from .interp import check_signature
 
             check_signature(contract.key, fn)  # the contract's setup was written for this signature
+            assignable = getattr(contract, "assignable", None)
+            if assignable is not None and not frame_checked and hasattr(fn, "node") and isinstance(fn.node, ast.FunctionDef):
+                # assignable clause, checked on the function's TEXT (independent of how far symbolic execution gets)
+                frame_checked = True
+                from .interp import Obligation
+
+                wrote = self_write_set(fn.node)
+                extra = sorted(wrote - set(assignable))
+                ob = Obligation(f"{contract.prefix}.frame.assignable_clause", [], z3.BoolVal(not extra), "syntactic")
+                ob.note = f"the method's text writes self.{', self.'.join(extra)}; the contract's frame allows only {sorted(assignable) or 'nothing'}" if extra else ""
+                rep.obligations.append(ob)
             try:
                 try:
                     rv = I.run_closure(fn, call.args, call.kwargs)
